@@ -426,7 +426,7 @@ func (w *World) callersObligations(prop string) []*Obligation {
 						continue
 					}
 					seen++
-					if matchesFuncGlob(n, cr.Allowed) {
+					if matchesFuncGlob(n, cr.Allowed) || w.allowedVia(n, cr.Allowed, 0) {
 						continue
 					}
 					count[n+hit]++
@@ -483,7 +483,7 @@ func (w *World) mapRangeObligations(prop string) []*Obligation {
 						continue
 					}
 					seen++
-					if matchesFuncGlob(n, mr.Allowed) {
+					if matchesFuncGlob(n, mr.Allowed) || w.allowedVia(n, mr.Allowed, 0) {
 						continue
 					}
 					cnt[n]++
@@ -527,6 +527,148 @@ func cmdMapRanges() int {
 						fmt.Printf("%-70s %-40s %s\n", shortName(n), typeKey(r.X.Type()), w.P.posStr(r.Pos()))
 					}
 				}
+			}
+		}
+	}
+	return 0
+}
+
+// staticCallers: for every repository function, the functions that call it statically (or take it as a value:
+// recorded as the pseudo-caller "<value>", which is never allowed).
+func (w *World) staticCallers() map[*ssa.Function][]string {
+	if w.callersOf != nil {
+		return w.callersOf
+	}
+	out := map[*ssa.Function][]string{}
+	for n, fn := range w.P.Funcs {
+		if !w.P.InRepo(FuncPkgPath(fn)) {
+			continue
+		}
+		for _, b := range fn.Blocks {
+			for _, ins := range b.Instrs {
+				if _, isDbg := ins.(*ssa.DebugRef); isDbg {
+					continue
+				}
+				var callee *ssa.Function
+				if ci, ok := ins.(ssa.CallInstruction); ok {
+					callee = ci.Common().StaticCallee()
+					if callee != nil {
+						out[callee] = append(out[callee], n)
+					}
+				}
+				for _, op := range ins.Operands(nil) {
+					if op == nil || *op == nil {
+						continue
+					}
+					if f, ok := (*op).(*ssa.Function); ok && f != callee {
+						out[f] = append(out[f], "<value>")
+					}
+				}
+			}
+		}
+	}
+	w.callersOf = out
+	return out
+}
+
+// allowedVia: n is not listed itself, but it is a private helper (unexported, not a closure, never taken as a
+// value) that is called only from listed functions - or from other such helpers - so the effect stays confined to
+// the listed functions, whose own contracts (frames, dry-flag clauses) then cover what the helper does.
+func (w *World) allowedVia(n string, allowed []string, depth int) bool {
+	fn := w.P.Funcs[n]
+	if fn == nil || depth > 3 || fn.Parent() != nil {
+		return false
+	}
+	if obj := fn.Object(); obj == nil || obj.Exported() {
+		return false
+	}
+	// ... that has no contract of its own and is verified INLINE at each of its call sites (loop-free, small): the
+	// site clauses and frames of the listed callers then apply to its body
+	if w.C.Funcs[n] != nil {
+		return false
+	}
+	if w.probe == nil {
+		for _, f := range w.P.Funcs {
+			if w.P.InRepo(FuncPkgPath(f)) && len(f.Blocks) > 0 {
+				w.probe = NewVC(w.P, w.C, f, nil)
+				break
+			}
+		}
+	}
+	if w.probe == nil || !w.probe.inlinable(fn) {
+		return false
+	}
+	callers := w.staticCallers()[fn]
+	if len(callers) == 0 {
+		return false
+	}
+	for _, c := range callers {
+		if c == "<value>" {
+			return false
+		}
+		if matchesFuncGlob(c, allowed) {
+			continue
+		}
+		if c == n || !w.allowedVia(c, allowed, depth+1) {
+			return false
+		}
+	}
+	return true
+}
+
+// cmdSoleSites lists the "site X#1 requires" clauses whose function has exactly ONE static site of X: for those
+// "#0" (every site) says the same on the current tree and also covers a site of X that a change adds later.
+func cmdSoleSites() int {
+	w, err := loadWorld()
+	if err != nil {
+		fmt.Fprintln(os.Stderr, err)
+		return 2
+	}
+	var names []string
+	for n := range w.C.Funcs {
+		names = append(names, n)
+	}
+	sort.Strings(names)
+	for _, n := range names {
+		fc := w.C.Funcs[n]
+		fn := w.P.Funcs[n]
+		if fn == nil || fc.External || fc.Trusted {
+			continue
+		}
+		vc := NewVC(w.P, w.C, fn, fc)
+		counts := map[string]int{}
+		vc.walkInstrs(fn, "", 0, nil, func(x ssa.Instruction, path string) {
+			name := ""
+			switch x := x.(type) {
+			case ssa.CallInstruction:
+				if bi, isB := x.Common().Value.(*ssa.Builtin); isB {
+					name = bi.Name()
+				} else {
+					name, _ = vc.calleeName(x.Common())
+				}
+			case *ssa.Store:
+				name = storeSiteName(x)
+			case *ssa.MapUpdate:
+				name = "mapstore"
+			}
+			if name == "" {
+				return
+			}
+			for _, c := range fc.Sites {
+				if c.Kind == "site-requires" && c.SiteN == 1 && (name == c.Site || matchCallee(name, c.Site)) {
+					counts[c.Site+"\x00"+name+"\x00"+fmt.Sprint(x.Pos())]++
+				}
+			}
+		})
+		per := map[string]int{}
+		for k := range counts {
+			per[strings.SplitN(k, "\x00", 2)[0]]++
+		}
+		seen := map[string]bool{}
+		for _, c := range fc.Sites {
+			if c.Kind == "site-requires" && c.SiteN == 1 && per[c.Site] == 1 && !seen[fmt.Sprint(c.File, c.Line)] {
+				seen[fmt.Sprint(c.File, c.Line)] = true
+				fmt.Printf("%s:%d\t%s\t%s\n", c.File, c.Line, shortName(n), c.Site)
 			}
 		}
 	}
